@@ -8,6 +8,7 @@ import (
 	"fmt"
 	"math/big"
 	"sort"
+	"strconv"
 	"strings"
 
 	"gofasta-verif/eval"
@@ -199,6 +200,19 @@ func Normalise(e *eval.FExpr, rename func(string) string) (Form, error) {
 		}
 		if s == "0" {
 			return RInt(0)
+		}
+		// "lin:2*n+1*s": the symbol stands for an integer combination of variables
+		if strings.HasPrefix(s, "lin:") {
+			r := RInt(0)
+			for _, term := range strings.Split(s[4:], "+") {
+				if term == "" {
+					continue
+				}
+				i := strings.Index(term, "*")
+				k, _ := strconv.ParseInt(term[:i], 10, 64)
+				r = r.Add(RVar(term[i+1:]).Mul(RInt(k)))
+			}
+			return r
 		}
 		return RVar(s)
 	}
